@@ -70,6 +70,10 @@ class Undecidable(AnchorMissing):
     """The interpreter met a construct it does not model: fail closed."""
 
 
+class OutOfFuel(Undecidable):
+    """Evaluation exceeded its step bound (a loop that does not end)."""
+
+
 class _Return(Exception):
     def __init__(self, v):
         self.v = v
@@ -122,7 +126,8 @@ class Interp:
     returns a value or raises Undecidable. Supported: literals, paths to unit variants,
     locals, constructor calls, struct literals, tuples, field access, index, references
     (transparent), blocks, let (with else), if / if-let, match with guards, loops, return,
-    break, continue, assignment, compound assignment, closures, && || ! == != + - < <= > >=."""
+    break, continue, `for` over an iterator supplied by extern, assignment, compound assignment,
+    mem::replace, closures, && || ! == != + - < <= > >=."""
 
     def __init__(self, F, extern, fuel=4000):
         self.F = F
@@ -235,7 +240,7 @@ class Interp:
     def ev(self, n, env):
         self.fuel -= 1
         if self.fuel < 0:
-            raise Undecidable('evaluation does not terminate within the fuel bound')
+            raise OutOfFuel('evaluation does not terminate within the fuel bound')
         if n is None:
             return ('T', ())
         k = n.get('k')
@@ -263,6 +268,10 @@ class Interp:
             dk = n['p'].get('dk') or ''
             return MutStruct(n['p']['def'], fields, variant='Variant' in dk)
         if k == 'call':
+            if n.get('def') == 'core::mem::replace' and len(n['a']) == 2:
+                old = self.ev(n['a'][0], env)
+                self.assign(n['a'][0], self.ev(n['a'][1], env), env)
+                return old
             args = [self.ev(x, env) for x in n['a']]
             if n.get('ctor'):
                 return V(n['ctor']['def'], *args)
@@ -320,7 +329,24 @@ class Interp:
             while True:
                 self.fuel -= 1
                 if self.fuel < 0:
-                    raise Undecidable('loop does not terminate within the fuel bound')
+                    raise OutOfFuel('loop does not terminate within the fuel bound')
+                try:
+                    self.ev(n['body'], env)
+                except _Break:
+                    return ('T', ())
+                except _Continue:
+                    continue
+        if k == 'for':
+            itv = self.ev(n['iter'], env)
+            while True:
+                self.fuel -= 1
+                if self.fuel < 0:
+                    raise OutOfFuel('loop does not terminate within the fuel bound')
+                r = self.extern('core::iter::traits::iterator::Iterator::next', itv, [], n)
+                if is_variant(r, NONE):
+                    return ('T', ())
+                if not is_variant(r, SOME) or not self.bind(n['pat'], r[2][0], env):
+                    raise Undecidable('for loop item %r' % (r,))
                 try:
                     self.ev(n['body'], env)
                 except _Break:
@@ -461,3 +487,1332 @@ def _one(F, pred, what):
 def _hloc(F, fn, node=None):
     h = F.hir[fn]
     return '%s:%s' % (h['file'], (node or {}).get('line') or h['line'])
+
+
+# =====================================================================================
+# C01.R1 - the field-splitting transducer
+# =====================================================================================
+LETTERS = ('N', 'W', 'X')                      # NonIfs, IfsWhitespace, IfsNonWhitespace
+LETTER_CLASS = {'N': 'NonIfs', 'W': 'IfsWhitespace', 'X': 'IfsNonWhitespace'}
+EXAMPLE_CHAR = {'N': 'a', 'W': ' ', 'X': '-'}  # with IFS=' -'
+
+
+def posix_fields_declarative(w):
+    """POSIX XCU 2.6.5 item 3, stated with a regular expression over the class string
+    (no automaton): (a) IFS white space is ignored at the beginning and end of the input;
+    (b) each non-white-space IFS character together with any adjacent IFS white space is
+    one delimiter; (c) any other non-empty run of IFS white space is one delimiter.
+    Delimiters terminate fields: text after the last delimiter is a field only if it is
+    non-empty; an empty field arises exactly when a (b) delimiter has no field text
+    before it."""
+    lead = len(w) - len(w.lstrip('W'))
+    body = w.strip('W')
+    out = []
+    start = 0
+    for m in re.finditer(r'W*XW*|W+', body):
+        out.append((lead + start, lead + m.start()))
+        start = m.end()
+    if start < len(body):
+        out.append((lead + start, lead + len(body)))
+    return out
+
+
+class PosixSplitter:
+    """Reference transducer written from the POSIX text (not from the implementation).
+
+    It remembers (1) where the field being collected started, if one is open, and (2)
+    whether the last thing seen was IFS white space that has already closed a field
+    (such white space and a following non-white-space IFS character form ONE delimiter)."""
+
+    def __init__(self):
+        self.open_at = None          # start position of the open field
+        self.closed_by_space = False
+        self.pos = 0
+
+    def config(self):
+        return (self.open_at, self.closed_by_space, self.pos)
+
+    @classmethod
+    def at(cls, cfg):
+        s = cls()
+        s.open_at, s.closed_by_space, s.pos = cfg
+        return s
+
+    def feed(self, letter):
+        out = []
+        p = self.pos
+        if letter == 'N':
+            if self.open_at is None:
+                self.open_at = p
+            self.closed_by_space = False
+        elif letter == 'W':
+            if self.open_at is not None:          # 3c: white space delimits the open field
+                out.append((self.open_at, p))
+                self.open_at = None
+                self.closed_by_space = True
+            # otherwise: leading white space, or white space adjacent to a delimiter: ignored (3a, 3b)
+        elif letter == 'X':
+            if self.open_at is not None:          # 3b: delimits the open field
+                out.append((self.open_at, p))
+                self.open_at = None
+            elif not self.closed_by_space:        # 3b: nothing before this delimiter: an empty field
+                out.append((p, p))
+            # else: the white space that closed the previous field is adjacent to this
+            # character, they are one delimiter and the field is already delivered
+            self.closed_by_space = False
+        self.pos = p + 1
+        return out
+
+    def finish(self):
+        out = []
+        if self.open_at is not None:
+            out.append((self.open_at, self.pos))
+            self.open_at = None
+        return out
+
+
+def _ref_run(w):
+    s = PosixSplitter()
+    out = []
+    for a in w:
+        out += s.feed(a)
+    return out + s.finish()
+
+
+class _NeedInput(Exception):
+    pass
+
+
+class _RuleViolation(Exception):
+    def __init__(self, key, msg, node=None):
+        self.key = key
+        self.msg = msg
+        self.node = node
+
+
+class RangesMachine:
+    """<Ranges as Iterator>::next, evaluated from its HIR."""
+
+    def __init__(self, F):
+        self.F = F
+        impl = [i for i in F.impls if i.get('self_adt') == RANGES and
+                i.get('trait_def') == 'core::iter::traits::iterator::Iterator']
+        if len(impl) != 1:
+            raise AnchorMissing('impl Iterator for split::Ranges: %d matches' % len(impl))
+        nexts = [it['def'] for it in impl[0]['items'] if it['def'].endswith('::next')]
+        if len(nexts) != 1 or nexts[0] not in F.hir:
+            raise AnchorMissing('Ranges::next not found')
+        self.next_fn = nexts[0]
+        self.ctor_fn = _one(F, lambda k: k.startswith(SPLIT + 'ranges::') and k.endswith('>::ranges'), 'Ifs::ranges')
+        self.letters = []
+        self.ended = False
+        self.consumed = 0
+        self.fields = set(F.adt(RANGES)['variants'][0]['fields'][i]['name']
+                          for i in range(len(F.adt(RANGES)['variants'][0]['fields'])))
+
+    # ---- the environment of the function
+    def extern(self, name, recv, args, node):
+        name = name or ''
+        if name == 'core::iter::traits::iterator::Iterator::next' and recv == ('O', 'inner'):
+            if self.ended:
+                return V(NONE)
+            if not self.letters:
+                raise _NeedInput()
+            self.consumed += 1
+            return V(SOME, ('O', 'char', self.letters.pop(0)))
+        if name == IFS + "::<'_>::classify_attr" and recv == ('O', 'ifs') and len(args) == 1 and \
+                isinstance(args[0], tuple) and args[0][:2] == ('O', 'char'):
+            return V('%s::%s' % (CLASS, LETTER_CLASS[args[0][2]]))
+        if name.startswith(IFS) and name.endswith('::classify'):
+            raise _RuleViolation('classifies-without-attributes',
+                                 'the splitter classifies characters with Ifs::classify, ignoring quoting and origin: '
+                                 'quoted and literal characters would delimit fields', node)
+        if name.endswith('IntoIterator::into_iter'):
+            return ('O', 'inner')
+        if name == '<%s as core::default::Default>::default' % STATE:
+            return Interp(self.F, self.extern).call_fn(name, [])
+        raise Undecidable('%s: call of %s is not modelled' % (self.next_fn, name))
+
+    def initial(self):
+        it = Interp(self.F, self.extern)
+        v = it.call_fn(self.ctor_fn, [('O', 'ifs'), ('O', 'chars')])
+        if not isinstance(v, MutStruct) or v.path != RANGES:
+            raise Undecidable('Ifs::ranges does not return a Ranges literal')
+        if v.fields.get('inner') != ('O', 'inner') or v.fields.get('ifs') != ('O', 'ifs'):
+            raise Undecidable('Ifs::ranges does not store its arguments in inner / ifs')
+        return self._config(v)
+
+    @staticmethod
+    def _config(s):
+        return (freeze(s.fields['state']), s.fields['next_index'])
+
+    def _self(self, cfg):
+        return MutStruct(RANGES, {'inner': ('O', 'inner'), 'ifs': ('O', 'ifs'),
+                                  'state': _thaw(cfg[0]), 'next_index': cfg[1]})
+
+    def _call(self, s):
+        it = Interp(self.F, self.extern)
+        r = it.call_fn(self.next_fn, [s])
+        if is_variant(r, NONE):
+            return None
+        if is_variant(r, SOME) and isinstance(r[2][0], MutStruct) and r[2][0].path == 'core::ops::range::Range':
+            f = r[2][0].fields
+            return (f['start'], f['end'])
+        raise Undecidable('Ranges::next returned %r' % (r,))
+
+    def feed(self, cfg, letter):
+        """-> (emitted ranges, new config)"""
+        s = self._self(cfg)
+        self.letters = [letter]
+        self.ended = False
+        self.consumed = 0
+        out = []
+        for _ in range(4):
+            try:
+                r = self._call(s)
+            except _NeedInput:
+                break
+            if r is not None:
+                out.append(r)
+            if self.consumed or r is None:
+                break
+        else:
+            raise Undecidable('Ranges::next yields repeatedly without consuming input')
+        return out, self._config(s)
+
+    def finish(self, cfg):
+        """-> (emitted ranges, terminated: bool)"""
+        s = self._self(cfg)
+        self.letters = []
+        self.ended = True
+        out = []
+        try:
+            for _ in range(6):
+                r = self._call(s)
+                if r is None:
+                    again = self._call(s)
+                    return out, again is None
+                out.append(r)
+        except OutOfFuel:
+            pass
+        return out, False
+
+    def run(self, w):
+        cfg = self.initial()
+        out = []
+        for a in w:
+            o, cfg = self.feed(cfg, a)
+            out += o
+        o, ok = self.finish(cfg)
+        return out + o, ok
+
+
+def _thaw(v):
+    if isinstance(v, tuple) and v and v[0] == 'S':
+        return MutStruct(v[1], {k: _thaw(x) for k, x in v[2]}, variant=True)
+    if isinstance(v, tuple) and v and v[0] == 'V':
+        return ('V', v[1], tuple(_thaw(x) for x in v[2]))
+    return v
+
+
+def _ints(v, acc):
+    if isinstance(v, bool):
+        return
+    if isinstance(v, int):
+        acc.append(v)
+    elif isinstance(v, tuple):
+        for x in v:
+            _ints(x, acc)
+
+
+def _map_ints(v, f):
+    if isinstance(v, bool) or v is None:
+        return v
+    if isinstance(v, int):
+        return f(v)
+    if isinstance(v, tuple):
+        return tuple(_map_ints(x, f) for x in v)
+    return v
+
+
+REGION_K = 6      # indices older than this many positions are only compared for equality
+BASE = 1000
+
+
+def _canon(pstate, pos):
+    """Region abstraction: every index in the product state relative to the current
+    position; indices more than REGION_K positions old keep only their mutual order."""
+    acc = []
+    _ints(pstate, acc)
+    rel = sorted({x - pos for x in acc})
+    if rel and rel[-1] > REGION_K:
+        raise Undecidable('an index runs more than %d positions ahead of the input position' % REGION_K)
+    old = [r for r in rel if r < -REGION_K]
+    ren = {r: -REGION_K - 1 - i for i, r in enumerate(sorted(old, reverse=True))}
+    return _map_ints(pstate, lambda x: ren.get(x - pos, x - pos))
+
+
+def _settle(ib, rb):
+    """Cancel the common prefix of the two output buffers; None if they contradict."""
+    ib, rb = list(ib), list(rb)
+    while ib and rb:
+        if ib[0] != rb[0]:
+            return None
+        ib.pop(0)
+        rb.pop(0)
+    return tuple(ib), tuple(rb)
+
+
+def _render(w, fields):
+    s = ''.join(EXAMPLE_CHAR[a] for a in w)
+    return '[' + ', '.join(repr(s[a:b]) if 0 <= a <= b <= len(s) else '%d..%d' % (a, b) for a, b in fields) + ']'
+
+
+@RS.rule('C01.R1', 'K-TABLE', 'the field-splitting transducer Ranges::next is bisimilar to the POSIX 2.6.5 reference transducer')
+def r1(cx):
+    F = cx.F
+    # the oracle is checked against the declarative statement first (a wrong oracle is an infrastructure error)
+    n_oracle = 0
+    frontier = ['']
+    for depth in range(9):
+        for w in frontier:
+            n_oracle += 1
+            if _ref_run(w) != posix_fields_declarative(w):
+                raise AnchorMissing('C01.R1: reference transducer disagrees with the declarative POSIX statement on %r' % w)
+        frontier = [w + a for w in frontier for a in LETTERS]
+    cx.site('reference transducer == declarative POSIX 2.6.5 statement on all %d class sequences up to length 8' % n_oracle)
+
+    M = RangesMachine(F)
+    cx.fn(M.next_fn)
+    cx.fn(M.ctor_fn)
+    loc = _hloc(F, M.next_fn)
+    try:
+        init = M.initial()
+    except _RuleViolation as v:
+        cx.violation(M.ctor_fn, v.key, v.msg, loc=_hloc(F, M.ctor_fn))
+        return
+    cx.site('Ifs::ranges: initial configuration state=%s next_index=%s' % (_short(init[0]), init[1]))
+    if init[1] != 0:
+        cx.violation(M.ctor_fn, 'initial-index', 'field ranges are counted from %r instead of 0: every field is cut at the '
+                     'wrong place' % (init[1],), loc=_hloc(F, M.ctor_fn))
+        return
+
+    # product exploration
+    start = (init[0], init[1], PosixSplitter().config()[:2], (), ())     # impl state, impl index, ref state, buffers
+    seen = {_canon(start, 0): ''}
+    queue = deque([(_canon(start, 0), '')])
+    bad = []
+    n_trans = 0
+    try:
+        while queue:
+            can, w = queue.popleft()
+            if len(seen) > 4000:
+                raise Undecidable('product of Ranges::next and the reference transducer does not close (over 4000 regions)')
+            ps = _map_ints(can, lambda x: x + BASE)
+            istate, iidx, rstate, ibuf, rbuf = ps
+            # end of input from here
+            o, term = M.finish((istate, iidx))
+            ro = PosixSplitter.at(rstate + (BASE,)).finish()
+            n_trans += 1
+            if not term:
+                bad.append((w, 'end', 'keeps yielding fields after the end of the input'))
+                continue
+            if tuple(ibuf) + tuple(o) != tuple(rbuf) + tuple(ro):
+                bad.append((w, 'end', None))
+                continue
+            for a in LETTERS:
+                n_trans += 1
+                o, (s2, i2) = M.feed((istate, iidx), a)
+                ref = PosixSplitter.at(rstate + (BASE,))
+                ro = ref.feed(a)
+                bufs = _settle(tuple(ibuf) + tuple(o), tuple(rbuf) + tuple(ro))
+                if bufs is None:
+                    bad.append((w + a, 'step', None))
+                    continue
+                if len(bufs[0]) > 3 or len(bufs[1]) > 3:
+                    raise Undecidable('output lag between Ranges::next and the reference grows beyond 3 fields')
+                nxt = _canon((s2, i2, ref.config()[:2], bufs[0], bufs[1]), BASE + 1)
+                if nxt not in seen:
+                    seen[nxt] = w + a
+                    queue.append((nxt, w + a))
+    except _RuleViolation as v:
+        cx.violation(M.next_fn, v.key, v.msg, loc=_hloc(F, M.next_fn, v.node))
+        return
+    except Undecidable:
+        if not bad:          # a divergence already found is reported; otherwise fail closed
+            raise
+    cx.cellcount(n_trans)
+    cx.site('%d product regions closed under {NonIfs, IfsWhitespace, IfsNonWhitespace, end}; %d transitions compared'
+            % (len(seen), n_trans))
+    cx.sample({'function': M.next_fn, 'regions': len(seen), 'transitions': n_trans,
+               'example': {'classes': 'WNWXWXN', 'fields': _render('WNWXWXN', M.run('WNWXWXN')[0])}})
+    if len(seen) < 3 and not bad:
+        raise AnchorMissing('C01.R1: product has only %d regions (the transducer was not exercised)' % len(seen))
+    if bad:
+        bad.sort(key=lambda b: (len(b[0]), b[0]))
+        w, kind, why = bad[0]
+        got, term = M.run(w)
+        want = posix_fields_declarative(w)
+        text = ''.join(EXAMPLE_CHAR[a] for a in w)
+        cx.violation(M.next_fn, 'diverges:%s' % (w or 'empty'),
+                     'class sequence [%s] (e.g. IFS=" -", unquoted expansion result %r): the splitter yields %s%s, POSIX 2.6.5 '
+                     'prescribes %s (%d diverging product regions in total)'
+                     % (', '.join(LETTER_CLASS[a] for a in w), text, _render(w, got),
+                        '' if term else ' and never stops', _render(w, want), len(bad)), loc=loc)
+
+
+def _short(v):
+    if isinstance(v, tuple) and v and v[0] in ('V', 'S'):
+        inner = ', '.join(_short(x) for x in v[2]) if v[0] == 'V' else ', '.join('%s: %s' % (k, _short(x)) for k, x in v[2])
+        return v[1].split('::')[-1] + ('(%s)' % inner if inner else '')
+    return repr(v)
+
+
+# =====================================================================================
+# C01.R2 - only unquoted soft-expansion characters delimit
+# =====================================================================================
+def _variants(F, adt):
+    return [v['name'] for v in F.adt(adt)['variants']]
+
+
+@RS.rule('C01.R2', 'K-GUARD', 'Ifs::classify_attr consults IFS only for unquoted, non-quoting SoftExpansion characters; Ifs::classify is the 2-test table')
+def r2(cx):
+    F = cx.F
+    fn = IFS + "::<'_>::classify_attr"
+    fn2 = IFS + "::<'_>::classify"
+    F.hir_of(fn)
+    F.hir_of(fn2)
+    cx.fn(fn)
+    cx.fn(fn2)
+    origins = _variants(F, ORIGIN)
+    if 'SoftExpansion' not in origins:
+        raise AnchorMissing('C01.R2: Origin::SoftExpansion does not exist')
+    fields = [f['name'] for f in F.adt(ATTRCHAR)['variants'][0]['fields']]
+    if sorted(fields) != ['is_quoted', 'is_quoting', 'origin', 'value']:
+        raise AnchorMissing('C01.R2: AttrChar has fields %s; the attribute domain of this rule is out of date' % fields)
+
+    def extern(name, recv, args, node):
+        if name == fn2 and recv == ('O', 'ifs'):
+            return ('O', 'classified', freeze(args))
+        raise Undecidable('classify_attr: call of %s is not modelled' % name)
+
+    for org in origins:
+        for quoted in (False, True):
+            for quoting in (False, True):
+                c = MutStruct(ATTRCHAR, {'value': ('O', 'the-char'), 'origin': V('%s::%s' % (ORIGIN, org)),
+                                         'is_quoted': quoted, 'is_quoting': quoting})
+                res = Interp(F, extern).call_fn(fn, [('O', 'ifs'), c])
+                cx.cellcount(1)
+                cell = '%s/%s/%s' % (org, 'quoted' if quoted else 'unquoted', 'quoting' if quoting else 'plain')
+                may_split = org == 'SoftExpansion' and not quoted and not quoting
+                if may_split:
+                    if res != ('O', 'classified', (('O', 'the-char'),)):
+                        cx.violation(fn, 'cell:' + cell, 'an unquoted character resulting from an expansion is classified as %s '
+                                     'instead of by its IFS membership: expansion results are not split' % _short(freeze(res)),
+                                     loc=_hloc(F, fn))
+                else:
+                    if freeze(res) != V(CLASS + '::NonIfs'):
+                        what = 'by IFS membership' if isinstance(res, tuple) and res[:2] == ('O', 'classified') else 'as ' + _short(freeze(res))
+                        cx.violation(fn, 'cell:' + cell, 'a character with origin=%s is_quoted=%s is_quoting=%s is classified %s: '
+                                     'quoted or literal text would be split at IFS characters' % (org, quoted, quoting, what),
+                                     loc=_hloc(F, fn))
+    cx.sample({'function': fn, 'domain': '%d origins x quoted x quoting' % len(origins)})
+
+    # classify: in IFS? white space?
+    truth = {}
+
+    def extern2(name, recv, args, node):
+        if recv == ('O', 'ifs') and args == [('O', 'the-char')]:
+            if name == IFS + "::<'_>::is_ifs":
+                return truth['ifs']
+            if name == IFS + "::<'_>::is_ifs_non_whitespace":
+                return truth['nonws']
+        raise Undecidable('classify: call of %s is not modelled' % name)
+    for in_ifs in (False, True):
+        for nonws in (False, True):
+            if nonws and not in_ifs:
+                continue        # non_whitespaces is a subsequence of chars
+            truth = {'ifs': in_ifs, 'nonws': nonws}
+            res = freeze(Interp(F, extern2).call_fn(fn2, [('O', 'ifs'), ('O', 'the-char')]))
+            want = 'NonIfs' if not in_ifs else ('IfsNonWhitespace' if nonws else 'IfsWhitespace')
+            cx.cellcount(1)
+            if res != V('%s::%s' % (CLASS, want)):
+                cx.violation(fn2, 'cell:%s/%s' % ('in-ifs' if in_ifs else 'not-in-ifs', 'non-whitespace' if nonws else 'whitespace'),
+                             'a character that is %sin IFS and is %swhite space is classified %s, expected %s'
+                             % ('' if in_ifs else 'not ', 'not ' if nonws else '', _short(res), want), loc=_hloc(F, fn2))
+    # the two membership tests read the two fields they are named after
+    for meth, field in (('is_ifs', 'chars'), ('is_ifs_non_whitespace', 'non_whitespaces')):
+        h = F.hir_of(IFS + "::<'_>::" + meth)
+        reads = {x['name'] for x in H.walk(h['body']) if x.get('k') == 'field' and x.get('adt') == IFS}
+        contains = H.calls(h['body'], [re.compile(r'::contains$')])
+        cx.site('%s reads Ifs.%s through %d contains call' % (meth, sorted(reads), len(contains)))
+        if reads != {field} or len(contains) != 1:
+            cx.violation(IFS + "::<'_>::" + meth, 'membership-source', '%s must test membership in Ifs.%s (reads %s)'
+                         % (meth, field, sorted(reads)), loc=_hloc(F, IFS + "::<'_>::" + meth))
+    # Ifs::new fills non_whitespaces from the same string through non_whitespaces()
+    h = F.hir_of(IFS + "::<'a>::new")
+    lit = [x for x in H.walk(h['body']) if x.get('k') == 'struct' and x['p'].get('def') == IFS]
+    cx.require(len(lit) == 1, 'Ifs::new does not build one Ifs literal')
+    fl = dict((f[0], f[1]) for f in lit[0]['fields'])
+    arg = h['params'][0].get('id') if len(h['params']) == 1 else None
+    ok = arg is not None and H.peel(fl.get('chars', {})).get('id') == arg
+    nw = H.peel(fl.get('non_whitespaces', {}))
+    ok = ok and nw.get('k') == 'call' and nw.get('def') == SPLIT + 'ifs::non_whitespaces' and \
+        H.peel(nw['a'][0]).get('id') == arg
+    cx.site('Ifs::new: chars = chars, non_whitespaces = non_whitespaces(chars)')
+    if not ok:
+        cx.violation(IFS + "::<'a>::new", 'ifs-fields', 'Ifs::new must store the IFS string and its non-white-space subsequence '
+                     'computed from the same string', loc=_hloc(F, IFS + "::<'a>::new"))
+
+
+# =====================================================================================
+# C01.R3 - the ${x-w} family
+# =====================================================================================
+VALUE = 'yash_env::variable::value::Value'
+SWITCH_LEX = "yash_syntax::parser::lex::modifier::<impl yash_syntax::parser::lex::core::WordLexer<'_, '_>>::switch"
+SUFFIX_LEX = "yash_syntax::parser::lex::modifier::<impl yash_syntax::parser::lex::core::WordLexer<'_, '_>>::suffix_modifier"
+ACTION = 'yash_syntax::syntax::SwitchAction'
+CONDITION = 'yash_syntax::syntax::SwitchCondition'
+
+# POSIX XCU 2.6.2: what ${parameter<colon?><symbol>word} yields, by the state of parameter.
+# 'vacant' = unset, or (with colon) null. Result classes: VALUE = the parameter's own value
+# (null when it is null/unset), WORD = expansion of word, ASSIGN = assign word then yield it,
+# ERROR = write message and fail.
+POSIX_SWITCH = {
+    '-': {'vacant': 'WORD', 'occupied': 'VALUE'},
+    '=': {'vacant': 'ASSIGN', 'occupied': 'VALUE'},
+    '?': {'vacant': 'ERROR', 'occupied': 'VALUE'},
+    '+': {'vacant': 'VALUE', 'occupied': 'WORD'},
+}
+# parameter states: name -> (value, is unset, is null). The last three rows are yash's
+# documented array extension (an array with no element or one empty element counts as null).
+PARAM_STATES = [
+    ('unset', None, True, False),
+    ('null', V(SOME, V(VALUE + '::Scalar', '')), False, True),
+    ('non-null', V(SOME, V(VALUE + '::Scalar', 'x')), False, False),
+    ('array()', V(SOME, V(VALUE + '::Array', [])), False, True),
+    ("array('')", V(SOME, V(VALUE + '::Array', [''])), False, True),
+    ("array('x')", V(SOME, V(VALUE + '::Array', ['x'])), False, False),
+    ("array('','')", V(SOME, V(VALUE + '::Array', ['', ''])), False, False),
+]
+
+
+def _no_extern(what):
+    def extern(name, recv, args, node):
+        raise Undecidable('%s: call of %s is not modelled' % (what, name))
+    return extern
+
+
+def _async_block(h):
+    """The user-written block of an `async fn` (inside the generated closure)."""
+    b = h['body']
+    if b.get('k') == 'closure':
+        b = b['body']
+    return b
+
+
+def _params_by_type(h):
+    """{type string: [local ids]} of the parameters of a fn as seen by its body (for an
+    `async fn`, the locals the desugaring re-binds the parameters to)."""
+    pids = {p_.get('id') for p_ in h['params'] if p_.get('k') == 'bind'}
+    out = {}
+    b = h['body']
+    if b.get('k') == 'closure':
+        for st in b['body'].get('stmts') or []:
+            if st.get('k') == 'let' and st['pat'].get('k') == 'bind':
+                init = H.peel(st.get('init') or {})
+                if init.get('k') == 'local' and init.get('exp') and init['id'] in pids:
+                    out.setdefault(st.get('ty'), []).append(st['pat']['id'])
+    return out
+
+
+def _arm_class(F, body):
+    """Result class of one arm of switch::apply, from the calls it makes."""
+    body_p = H.peel(body)
+    if body_p.get('k') == 'path' and body_p.get('def') == NONE:
+        return 'VALUE'
+    calls = H.calls(body)
+    names = [c.get('def') or c.get('decl') or '' for c in calls]
+    wraps_some = any(c.get('ctor') and c['ctor'].get('def') == SOME for c in calls)
+    if not wraps_some:
+        return '?no-Some'
+    if SW + 'assign' in names:
+        return 'ASSIGN'
+    if SW + 'vacant_expansion_error' in names:
+        return 'ERROR' if any(c.get('ctor') and c['ctor'].get('def') == 'core::result::Result::Err' for c in calls) else '?error-not-Err'
+    exp = [c for c in calls if c.get('k') == 'mcall' and (c.get('decl') or '').endswith('::Expand::expand')]
+    if exp:
+        recv = H.peel(exp[0]['recv'])
+        on_word = recv.get('k') == 'field' and recv.get('name') == 'word' and recv.get('adt') == 'yash_syntax::syntax::Switch'
+        attributed = any(x.get('k') == 'path' and x.get('def') == SW + 'attribute' for x in H.walk(body)) or SW + 'attribute' in names
+        if on_word and attributed:
+            return 'WORD'
+        return '?word-not-attributed' if on_word else '?expands-something-else'
+    return '?unknown'
+
+
+@RS.rule('C01.R3', 'K-TABLE', '${x-w} ${x=w} ${x?w} ${x+w} with and without colon: lexer, Vacancy::of, ValueCondition::with and switch::apply compose to the POSIX 2.6.2 table')
+def r3(cx):
+    F = cx.F
+    # (a) lexer: symbol -> action, colon -> condition, read backwards from the Switch literal
+    h = F.hir_of(SWITCH_LEX)
+    cx.fn(SWITCH_LEX)
+    blk = _async_block(h)
+    lits = [x for x in H.walk(blk) if x.get('k') == 'struct' and x['p'].get('def') == 'yash_syntax::syntax::Switch']
+    cx.require(len(lits) == 1, 'WordLexer::switch does not build exactly one Switch literal')
+    fl = {f[0]: H.peel(f[1]) for f in lits[0]['fields']}
+    lets = {}
+    for x in H.walk(blk):
+        if x.get('k') == 'block':
+            for st in x.get('stmts') or []:
+                if st.get('k') == 'let' and st['pat'].get('k') == 'bind':
+                    lets[st['pat']['id']] = st
+    by_type = _params_by_type(h)
+    for f in ('action', 'condition'):
+        cx.require(fl.get(f, {}).get('k') == 'local' and fl[f]['id'] in lets, 'Switch.%s is not a let-bound local' % f)
+    cx.require(len(by_type.get('char', [])) == 1 and len(by_type.get('bool', [])) == 1,
+               'WordLexer::switch must take one char (the symbol) and one bool (the colon flag)')
+    params = {'symbol': by_type['char'][0], 'colon': by_type['bool'][0]}
+    it = Interp(F, _no_extern('WordLexer::switch'))
+    lex_action = {}
+    for sym in '+-=?':
+        v = it.ev(lets[fl['action']['id']]['init'], {params['symbol']: sym})
+        cx.require(is_variant(v) and v[1].startswith(ACTION + '::'), 'action for %r is %r' % (sym, v))
+        lex_action[sym] = v
+        cx.cellcount(1)
+    lex_cond = {}
+    for colon in (False, True):
+        v = it.ev(lets[fl['condition']['id']]['init'], {params['colon']: colon})
+        cx.require(is_variant(v) and v[1].startswith(CONDITION + '::'), 'condition for colon=%s is %r' % (colon, v))
+        lex_cond[colon] = v
+        cx.cellcount(1)
+    if len({v[1] for v in lex_action.values()}) != 4 or len({v[1] for v in lex_cond.values()}) != 2:
+        cx.violation(SWITCH_LEX, 'lexer-not-injective', 'two switch symbols (or both colon forms) are parsed to the same '
+                     'action/condition: %s %s' % ({k: _short(v) for k, v in lex_action.items()},
+                                                  {k: _short(v) for k, v in lex_cond.items()}), loc=_hloc(F, SWITCH_LEX))
+    # the dispatcher sends exactly these four symbols, with the colon flag, to switch()
+    hs = F.hir_of(SUFFIX_LEX)
+    cx.fn(SUFFIX_LEX)
+    disp = None
+    for m in H.matches_in(_async_block(hs)):
+        for arm in m['arms']:
+            cs = H.calls(arm['body'], [SWITCH_LEX])
+            if cs:
+                disp = (m, arm, cs[0])
+    cx.require(disp is not None, 'suffix_modifier does not call switch()')
+    vs = H.pat_variants(disp[1]['pat'])
+    syms = sorted(v[1] for v in (vs or []) if isinstance(v, tuple) and v[0] == 'lit')
+    cx.site('suffix_modifier dispatches %s to switch()' % syms)
+    # its char argument is the matched symbol; its bool argument is the result of skipping a ':'
+    args = [H.peel(a) for a in disp[2]['a']]
+    sym_ok = any(a.get('k') == 'local' and a.get('id') == H.peel(disp[0]['scrut']).get('id') for a in args)
+    colon_ok = False
+    for a in args:
+        if a.get('k') == 'local' and a.get('id') != H.peel(disp[0]['scrut']).get('id'):
+            for x in H.walk(_async_block(hs)):
+                if x.get('k') == 'block':
+                    for st in x.get('stmts') or []:
+                        if st.get('k') == 'let' and st['pat'].get('k') == 'bind' and st['pat']['id'] == a['id'] and st.get('ty') == 'bool':
+                            lits_ = [y.get('v') for y in H.walk(st['init']) if y.get('k') == 'lit']
+                            colon_ok = lits_ == [':'] and bool(H.calls(st['init'], [re.compile(r'::skip_if$')]))
+    if syms != sorted('+-=?') or not sym_ok or not colon_ok:
+        cx.violation(SUFFIX_LEX, 'dispatch', 'the switch parser must receive exactly the symbols + - = ? together with the flag that '
+                     "tells whether a ':' was skipped; found symbols %s, symbol passed: %s, colon flag passed: %s"
+                     % (syms, sym_ok, colon_ok), loc=_hloc(F, SUFFIX_LEX, disp[1]))
+
+    # (b) Vacancy::of, (c) ValueCondition::with, (d) arms of apply
+    of_inner = SW + 'Vacancy::of::inner'
+    with_inner = SW + 'ValueCondition::with::inner'
+    for fn, inner in ((SW + 'Vacancy::of', of_inner), (SW + 'ValueCondition::with', with_inner)):
+        hh = F.hir_of(fn)
+        cs = H.calls(hh['body'], [inner])
+        cx.require(len(cs) == 1, '%s does not delegate to its inner function' % fn)
+        cx.fn(inner)
+    apply_fn = SW + 'apply'
+    ha = F.hir_of(apply_fn)
+    cx.fn(apply_fn)
+    ms = [m for m in H.matches_in(_async_block(ha)) if ACTION in (m.get('sty') or '') and 'ValueCondition' in (m.get('sty') or '')]
+    cx.require(len(ms) == 1, 'switch::apply: match over (action, condition) not found')
+    m = ms[0]
+    # the scrutinee is (switch.action, ValueCondition::with(switch.condition, Vacancy::of(value)))
+    sc = H.peel(m['scrut'])
+    ok_scrut = sc.get('k') == 'tup' and len(sc['a']) == 2
+    if ok_scrut:
+        a0, a1 = H.peel(sc['a'][0]), H.peel(sc['a'][1])
+        ok_scrut = a0.get('k') == 'field' and a0.get('name') == 'action' and a1.get('k') == 'local'
+        if ok_scrut:
+            cond_let = [s for x in H.walk(_async_block(ha)) if x.get('k') == 'block' for s in (x.get('stmts') or [])
+                        if s.get('k') == 'let' and s['pat'].get('k') == 'bind' and s['pat']['id'] == a1['id']]
+            ok_scrut = len(cond_let) == 1
+            if ok_scrut:
+                init = H.peel(cond_let[0]['init'])
+                ok_scrut = init.get('k') == 'call' and init.get('def') == SW + 'ValueCondition::with'
+                if ok_scrut:
+                    c0, c1 = H.peel(init['a'][0]), H.peel(init['a'][1])
+                    ok_scrut = (c0.get('k') == 'field' and c0.get('name') == 'condition' and c1.get('k') == 'call' and
+                                c1.get('def') == SW + 'Vacancy::of' and
+                                H.peel(c1['a'][0]).get('id') in _params_by_type(ha).get('core::option::Option<&%s>' % VALUE, []))
+    cx.site('switch::apply matches (switch.action, ValueCondition::with(switch.condition, Vacancy::of(value)))')
+    if not ok_scrut:
+        cx.violation(apply_fn, 'scrutinee', 'switch::apply must decide on (switch.action, ValueCondition::with(switch.condition, '
+                     'Vacancy::of(value)))', loc=_hloc(F, apply_fn, m))
+        return
+    pure = Interp(F, _no_extern('switch table'))
+    table = {}
+    for sym in '+-=?':
+        for colon in (False, True):
+            for name, value, unset, null in PARAM_STATES:
+                vac = pure.call_fn(of_inner, [value if value is not None else V(NONE)])
+                vc = pure.call_fn(with_inner, [lex_cond[colon], vac])
+                arm_i = None
+                for i, arm in enumerate(m['arms']):
+                    if pure.bind(arm['pat'], ('T', (lex_action[sym], vc)), {}):
+                        if arm.get('guard') is not None:
+                            raise Undecidable('guarded arm in switch::apply')
+                        arm_i = i
+                        break
+                cx.require(arm_i is not None, 'no arm of switch::apply matches (%s, %s)' % (_short(lex_action[sym]), _short(freeze(vc))))
+                got = _arm_class(F, m['arms'][arm_i]['body'])
+                vacant = unset or (colon and null)
+                want = POSIX_SWITCH[sym]['vacant' if vacant else 'occupied']
+                form = '${x%s%sw}' % (':' if colon else '', sym)
+                table['%s %s' % (form, name)] = got
+                cx.cellcount(1)
+                if got != want:
+                    cx.violation(apply_fn, 'cell:%s:%s' % (form, name),
+                                 '%s with x %s yields %s, POSIX 2.6.2 prescribes %s (lexer: %s/%s, vacancy %s, condition %s, arm %d)'
+                                 % (form, name, got, want, _short(lex_action[sym]), _short(lex_cond[colon]),
+                                    _short(freeze(vac)), _short(freeze(vc)), arm_i), loc=_hloc(F, apply_fn, m['arms'][arm_i]))
+    cx.sample({'table': {k: table[k] for k in list(table)[:8]}})
+    # (e) the caller returns Some(result) as the whole expansion and continues with the value on None
+    pe = "<%sparam::ParamRef<'_> as %sExpand<S>>::expand" % (INIT, INIT)
+    hp = F.hir_of(pe)
+    cx.fn(pe)
+    ok = False
+    for x in H.walk(_async_block(hp)):
+        if x.get('k') == 'if' and x['c'].get('k') == 'letexpr' and H.calls(x['c']['init'], [apply_fn]):
+            pat = x['c']['pat']
+            rets = [r for r in H.walk(x['t']) if r.get('k') == 'ret']
+            if pat.get('k') == 'ptuplestruct' and pat['p'].get('def') == SOME and pat['sub'][0].get('k') == 'bind' and \
+                    len(rets) == 1 and H.peel(rets[0]['e']).get('id') == pat['sub'][0]['id'] and x.get('f') is None:
+                ok = True
+    cx.site('ParamRef::expand: `if let Some(result) = switch::apply(..).await { return result }`')
+    if not ok:
+        cx.violation(pe, 'apply-result', 'the result of switch::apply must be returned as the whole expansion when it is Some, and '
+                     'the expansion must continue with the parameter value when it is None', loc=_hloc(F, pe))
+
+
+# =====================================================================================
+# C01.R4 - nounset
+# =====================================================================================
+PARAM_EXPAND = "<%sparam::ParamRef<'_> as %sExpand<S>>::expand" % (INIT, INIT)
+MODIFIER = 'yash_syntax::syntax::Modifier'
+
+
+def _call_behind(body, du, operand):
+    """The call whose result an operand is a copy of / reference to, or None."""
+    org = du.origin(operand)
+    for _ in range(4):
+        if org['k'] == 'call':
+            return org['t']
+        if org['k'] == 'ref':
+            org = du.origin_place(org['pl'])
+            continue
+        break
+    return None
+
+
+def _agg_behind(body, du, operand):
+    org = du.origin(operand)
+    for _ in range(4):
+        if org['k'] == 'agg':
+            return org['rv']
+        if org['k'] == 'ref':
+            org = du.origin_place(org['pl'])
+            continue
+        break
+    return None
+
+
+def _is_modifier_place(body, du, pl):
+    pl = du.deref_origin(pl)
+    fs = [e for e in (pl.get('p') or []) if isinstance(e, dict) and 'f' in e]
+    return bool(fs) and fs[-1]['f'] == 'modifier' and 'ParamRef' in (fs[-1].get('adt') or '')
+
+
+@RS.rule('C01.R4', 'K-GUARD+K-ORDER', 'nounset: UnsetParameter only if the value is unset and the Unset option is off, only without a switch, and before length/trim')
+def r4(cx):
+    F = cx.F
+    body = F.main_body(PARAM_EXPAND)
+    cx.fn(body.fn)
+    du = Q.DefUse(body)
+    aggs = Q.find_aggregates(body, 'yash_semantics::expansion::ErrorCause', 'UnsetParameter')
+    if not aggs:
+        cx.site('%s: no ErrorCause::UnsetParameter constructed' % body.fn)
+        cx.violation(PARAM_EXPAND, 'no-nounset-check', 'parameter expansion never reports an unset parameter: `set -u` has no effect',
+                     loc=body.loc(body.d))
+        return
+    # every switch on the discriminant of self.modifier, with its per-edge variant labels
+    mod_switch = {}
+    for b in sorted(body.live_blocks()):
+        ec = Q.edge_condition(F, body, du, b)
+        if ec and ec[0]['k'] == 'discr' and MODIFIER in ec[0]['ty'] and _is_modifier_place(body, du, ec[0]['pl']):
+            mod_switch[b] = ec[1]
+    cx.require(mod_switch, 'no test of self.modifier in ParamRef::expand')
+    switch_edges = {(b, tgt) for b, labels in mod_switch.items() for tgt, labs in labels.items()
+                    if ('variant', 'Switch') in labs}
+    is_none_blocks = set()
+    for b, j, s in aggs:
+        cx.site('%s: ErrorCause::UnsetParameter at %s' % (body.fn, body.loc(s)))
+        conds = Q.dominating_conditions(F, body, du, b)
+        unset_value = option_off = False
+        for org, lab, e in conds:
+            if org['k'] != 'call':
+                continue
+            t = org['t']
+            if Q.callee_is(t, ['core::option::Option::<T>::is_none']) and lab == ('bool', True):
+                recv = du.origin(t['a'][0])
+                # the receiver is the resolved value (the local produced by Expansion::into_owned)
+                if recv['k'] == 'ref':
+                    defs = du.defs.get(recv['pl']['l'], [])
+                    if any(d[1] == 't' and Q.callee_is(d[2], [re.compile(r'::Expansion::<.*>::into_owned$')]) for d in defs):
+                        unset_value = True
+                        is_none_blocks.add(org['b'])
+            want = None
+            if Q.callee_is(t, [re.compile(r'^<yash_env::option::State as core::cmp::PartialEq>::eq$')]):
+                want = True
+            elif Q.callee_is(t, [re.compile(r'^<yash_env::option::State as core::cmp::PartialEq>::ne$')]):
+                want = False
+            if want is not None and lab == ('bool', want):
+                sides = []
+                for a in t['a']:
+                    c = _call_behind(body, du, a)
+                    g = _agg_behind(body, du, a)
+                    if c is not None and Q.callee_is(c, ['yash_env::option::OptionSet::get']):
+                        og = _agg_behind(body, du, c['a'][1])
+                        sides.append('get(%s)' % (og.get('variant') if og else '?'))
+                    elif g is not None and g.get('adt') == 'yash_env::option::State':
+                        sides.append(g.get('variant'))
+                if sorted(sides) == ['Off', 'get(Unset)']:
+                    option_off = True
+        not_switch = False
+        for sb, labels in mod_switch.items():
+            for tgt, labs in labels.items():
+                if ('variant', 'Switch') not in labs and Q.edge_dominates(body, sb, tgt, b):
+                    not_switch = True
+        if not unset_value:
+            cx.violation(PARAM_EXPAND, 'unguarded:value-unset', 'the unset-parameter error is not restricted to value.is_none(): set '
+                         'parameters would be rejected under nounset', loc=body.loc(s))
+        if not option_off:
+            cx.violation(PARAM_EXPAND, 'unguarded:option', 'the unset-parameter error is not restricted to options.get(Unset) == Off: '
+                         'unset parameters would be an error without `set -u` (or never with it)', loc=body.loc(s))
+        if not not_switch:
+            cx.violation(PARAM_EXPAND, 'unguarded:switch', 'the unset-parameter error is also reachable for ${x-w} ${x=w} ${x?w} ${x+w}, '
+                         'which POSIX exempts from nounset', loc=body.loc(s))
+    # order: on every switch-less path the nounset test comes before the length / trim modifiers
+    later = Q.find_calls(body, [INIT + 'param::to_length', INIT + 'param::trim::apply', VALUE + '::scalar'])
+    later += [(b, t) for b, t in body.calls() if any(a.get('fn') == INIT + 'param::to_length' for a in t['a'])]
+    cx.floor(len(later), 3, 'length/trim sites in ParamRef::expand')
+    for b, t in later:
+        cx.site('%s: %s at %s' % (body.fn, pp.callee(t).split('::')[-1], body.loc(t)))
+    if is_none_blocks and later:
+        p = Q.must_pass(body, [0], is_none_blocks, goal_blocks={b for b, _ in later}, removed_edges=switch_edges)
+        if p:
+            cx.violation(PARAM_EXPAND, 'modifier-before-nounset', 'a length or trim modifier is applied before the nounset test: '
+                         '${#x} of an unset x yields 0 instead of an error under `set -u`',
+                         loc=body.loc(body.term(p[-1])), path=Q.render_path(body, p))
+    cx.sample({'function': body.fn, 'modifier_tests': sorted(mod_switch), 'switch_edges_pruned': sorted(switch_edges)})
+
+
+# =====================================================================================
+# C01.R5 - attribute discipline of the producers of AttrChar
+# =====================================================================================
+T, Fa = 'true', 'false'
+ANY = None
+# root function (regex) -> what the module is, and the attribute triples (origin, is_quoted, is_quoting[, value])
+# it may build; 'required' triples must all be present (a producer that stops marking is a violation too)
+PRODUCERS = [
+    (r'^yash_semantics::expansion::initial::param::to_field$', 'parameter expansion result',
+     [('SoftExpansion', Fa, Fa)]),
+    (r'^yash_semantics::expansion::initial::arith::expand$', 'arithmetic expansion result',
+     [('SoftExpansion', Fa, Fa)]),
+    (r'^yash_semantics::expansion::initial::command_subst::expand_common$', 'command substitution result',
+     [('SoftExpansion', Fa, Fa)]),
+    (r'^yash_semantics::expansion::phrase::Phrase::ifs_join$', 'separator inserted when joining $*',
+     [('SoftExpansion', Fa, Fa)]),
+    (r'^yash_semantics::expansion::initial::tilde::finish$', 'tilde expansion result (never split, never a pattern)',
+     [('HardExpansion', Fa, Fa), ('HardExpansion', Fa, T, "'\"'")]),
+    (r'^yash_semantics::expansion::initial::word::single_quote$', 'single-quoted content',
+     [('Literal', T, Fa)]),
+    (r'^yash_semantics::expansion::initial::word::dollar_single_quote$', 'dollar-single-quoted content',
+     [('Literal', T, Fa)]),
+    (r'^yash_semantics::expansion::initial::word::SINGLE_QUOTE$', "the quoting ' itself", [('Literal', Fa, T, "'\\''")]),
+    (r'^yash_semantics::expansion::initial::word::dollar_single_quote::DOLLAR$', 'the quoting $ of $\'..\'', [('Literal', Fa, T, "'$'")]),
+    (r'^yash_semantics::expansion::initial::word::double_quote::QUOTE$', 'the quoting " itself', [('Literal', Fa, T, "'\"'")]),
+    (r'^yash_semantics::expansion::initial::word::double_quote$', 'a single character inside double quotes',
+     [(('copy', 'origin'), T, ('copy', 'is_quoting'), ('copy', 'value'))]),
+    (r'^yash_semantics::expansion::initial::text::<impl yash_semantics::expansion::initial::Expand<S> for yash_syntax::syntax::TextUnit>::expand$',
+     'literal character / backslash escape',
+     [('Literal', Fa, Fa), ('Literal', Fa, T, "'\\\\'"), ('Literal', T, Fa)]),
+    (r'^yash_builtin::read::input::quoted$', 'read: character after a backslash', [('SoftExpansion', T, Fa)]),
+    (r'^yash_builtin::read::input::quoting$', 'read: the backslash', [('SoftExpansion', Fa, T)]),
+    (r'^yash_builtin::read::input::plain$', 'read: ordinary character', [('SoftExpansion', Fa, Fa)]),
+]
+# the only code allowed to change attributes after construction: function -> {field: written value}
+ATTR_WRITERS = {
+    'yash_semantics::expansion::initial::word::double_quote::quote_field': {'is_quoted': T},
+    'yash_semantics::expansion::attr_fnmatch::apply_escapes': {'is_quoted': T, 'is_quoting': T},
+    'yash_semantics::expansion::initial::param::switch::attribute': {'origin': 'SoftExpansion'},
+}
+
+
+def _attr_operand(body, du, o):
+    org = du.origin(o)
+    if org['k'] == 'const':
+        return str(org['o'].get('c'))
+    if org['k'] == 'agg' and org['rv'].get('adt') == ORIGIN:
+        return org['rv'].get('variant')
+    if org['k'] == 'place':
+        fs = [e for e in (org['pl'].get('p') or []) if isinstance(e, dict) and 'f' in e]
+        if fs and fs[-1].get('adt') == ATTRCHAR:
+            return ('copy', fs[-1]['f'])
+    return 'var'
+
+
+def _match_table(F, fn, adt):
+    """Like hirq.fn_match_table, but also for scrutinees of type `&mut Adt` (helper that the
+    engine lacks): {variant short name: (arm index, arm body)} of the single match over adt."""
+    h = F.hir_of(fn)
+    ms = [m for m in H.matches_in(h['body']) if re.sub(r'^&(mut )?', '', (m.get('sty') or '').strip()) == adt]
+    if len(ms) != 1:
+        raise AnchorMissing('%s: expected one match over %s, found %d' % (fn, adt, len(ms)))
+    out = {}
+    for v in H.enum_variants(F, adt):
+        i, arm = H.first_matching_arm(ms[0], ('variant', v, None))
+        if i is None:
+            raise AnchorMissing('%s: match over %s not decidable for %s (%s)' % (fn, adt, v, arm))
+        out[H.short(v)] = (i, arm['body'])
+    return out, ms[0]
+
+
+@RS.rule('C01.R5', 'K-EFFECT', 'every producer of attributed characters uses the attributes of its module; attributes are changed afterwards only by the reviewed writers')
+def r5(cx):
+    F = cx.F
+    fields = [f['name'] for f in F.adt(ATTRCHAR)['variants'][0]['fields']]
+    cx.require(sorted(fields) == ['is_quoted', 'is_quoting', 'origin', 'value'], 'AttrChar fields changed: %s' % fields)
+    ix = {f: i for i, f in enumerate(fields)}
+    found = {}
+    for fn, body in F.bodies.items():
+        aggs = Q.find_aggregates(body, ATTRCHAR)
+        if not aggs:
+            continue
+        du = Q.DefUse(body)
+        for b, j, s in aggs:
+            ops = s['rv']['ops']
+            d = {f: _attr_operand(body, du, ops[ix[f]]) for f in fields}
+            found.setdefault(body.root, []).append((body, s, d))
+    n = 0
+    for root, lst in sorted(found.items()):
+        spec = [p for p in PRODUCERS if re.search(p[0], root)]
+        for body, s, d in lst:
+            n += 1
+            triple = (d['origin'], d['is_quoted'], d['is_quoting'])
+            cx.site('%s: AttrChar{origin: %s, is_quoted: %s, is_quoting: %s, value: %s} at %s'
+                    % (body.fn, d['origin'], d['is_quoted'], d['is_quoting'], d['value'], body.loc(s)))
+            cx.fn(body.fn)
+            if not spec:
+                cx.violation(root, 'unreviewed-producer:%s/%s/%s' % triple, 'attributed characters are built in a function that is '
+                             'not in the reviewed producer inventory (origin=%s is_quoted=%s is_quoting=%s): whether they are split, '
+                             'globbed and quote-removed correctly is not established' % triple, loc=body.loc(s))
+                continue
+            ok = False
+            for allowed in spec[0][2]:
+                if allowed[:3] == triple and (len(allowed) == 3 or allowed[3] == d['value']):
+                    ok = True
+            if not ok:
+                cx.violation(root, 'attributes:%s/%s/%s' % triple,
+                             '%s must be built with %s, found origin=%s is_quoted=%s is_quoting=%s value=%s: it will be %s'
+                             % (spec[0][1], ' or '.join('origin=%s is_quoted=%s is_quoting=%s' % a[:3] for a in spec[0][2]),
+                                d['origin'], d['is_quoted'], d['is_quoting'], d['value'], _consequence(spec[0][2][0], triple)),
+                             loc=body.loc(s))
+    # every reviewed producer still produces all its kinds
+    for pat, what, allowed in PRODUCERS:
+        roots = [r for r in found if re.search(pat, r)]
+        have = {(d['origin'], d['is_quoted'], d['is_quoting']) for r in roots for _, _, d in found[r]}
+        for a in allowed:
+            if a[:3] not in have:
+                fnname = pat.strip('^$').replace('\\', '')
+                exists = any(re.search(pat, r) for r in F.by_root)
+                if not exists:
+                    raise AnchorMissing('C01.R5: producer %s does not exist any more' % fnname)
+                cx.violation(fnname, 'missing:%s/%s/%s' % a[:3], '%s no longer builds characters with origin=%s is_quoted=%s '
+                             'is_quoting=%s' % ((what,) + tuple(a[:3])), loc=None)
+    cx.floor(n, 15, 'AttrChar aggregates in production code')
+    # writers of attributes after construction
+    nw = 0
+    for fn, body in F.bodies.items():
+        ws = Q.field_writes(body, ATTRCHAR)
+        if not ws:
+            continue
+        du = Q.DefUse(body)
+        for b, j, s, kind, f in ws:
+            if f == 'value' and kind == 'assign':
+                pass
+            nw += 1
+            val = _attr_operand(body, du, s['rv']['o']) if (kind == 'assign' and s['rv']['k'] == 'use') else kind
+            cx.site('%s: writes AttrChar.%s = %s at %s' % (body.fn, f, val, body.loc(s)))
+            allowed = ATTR_WRITERS.get(body.root, {})
+            if f not in allowed or allowed[f] != val:
+                cx.violation(body.root, 'writer:%s' % f, 'AttrChar.%s is changed to %s after construction outside the reviewed '
+                             'writers (double_quote, apply_escapes, switch::attribute)' % (f, val), loc=body.loc(s))
+    cx.floor(nw, 4, 'attribute writes after construction')
+    # double_quote marks every character of every shape of phrase
+    dq = 'yash_semantics::expansion::initial::word::double_quote'
+    table, m = _match_table(F, dq, 'yash_semantics::expansion::phrase::Phrase')
+    qf = dq + '::quote_field'
+    for variant, (i, arm) in sorted(table.items()):
+        uses_qf = any((x.get('k') in ('call', 'mcall') and (x.get('def') == qf)) or (x.get('k') == 'path' and x.get('def') == qf)
+                      for x in H.walk(arm))
+        builds = [x for x in H.walk(arm) if x.get('k') == 'struct' and x['p'].get('def') == ATTRCHAR]
+        cx.cellcount(1)
+        if not uses_qf and not builds:
+            cx.violation(dq, 'phrase-shape:%s' % variant, 'a Phrase::%s inside double quotes is not marked as quoted: its characters '
+                         'would be split and globbed' % variant, loc=_hloc(F, dq, arm))
+    # quote_field: the write of is_quoted happens for every element (inside the loop over iter_mut of the whole vector)
+    qb = F.body(qf)
+    cx.fn(qf)
+    ws = [w for w in Q.field_writes(qb, ATTRCHAR, 'is_quoted')]
+    its = Q.find_calls(qb, [re.compile(r'::iter_mut$')])
+    nxt = Q.find_calls(qb, [re.compile(r'Iterator.*::next$'), '*::Iterator::next'])
+    good = bool(ws and its and nxt) and all(any(qb.dominates(nb, w[0]) and nb in qb.reachable(w[0]) for nb, _ in nxt) for w in ws)
+    cx.site('%s: is_quoted = true inside the loop over chars.iter_mut()' % qf)
+    if not good:
+        cx.violation(qf, 'not-all-chars', 'quote_field does not set is_quoted on every character of the field', loc=qb.loc(qb.d))
+
+
+def _consequence(expected, got):
+    out = []
+    if expected[0] == 'SoftExpansion' and got[0] != 'SoftExpansion':
+        out.append('exempt from field splitting')
+    if expected[0] != 'SoftExpansion' and got[0] == 'SoftExpansion':
+        out.append('subject to field splitting')
+    if expected[1] == T and got[1] != T:
+        out.append('treated as unquoted (split, globbed)')
+    if expected[1] == Fa and got[1] == T:
+        out.append('treated as quoted (never split or matched as a pattern)')
+    if expected[2] == T and got[2] != T:
+        out.append('kept by quote removal')
+    if expected[2] == Fa and got[2] == T:
+        out.append('deleted by quote removal')
+    if expected[0] == 'HardExpansion' and got[0] != 'HardExpansion':
+        out.append('subject to pathname expansion')
+    return ', '.join(out) or 'handled differently by splitting, globbing or quote removal'
+
+
+# =====================================================================================
+# C01.R6 - order of the expansion steps
+# =====================================================================================
+EXP = 'yash_semantics::expansion::'
+EXPAND_CALL = ['*::Expand::expand', re.compile(r'initial::Expand<S>.*>::expand$')]
+SPLIT_INTO = [SPLIT + 'split_into', SPLIT + 'split']
+GLOB = [EXP + 'glob::glob']
+RANGES_CALLS = [re.compile(r'^' + re.escape(SPLIT) + r'ranges::<impl .*>::ranges$')]
+IFS_JOIN = [EXP + 'phrase::Phrase::ifs_join']
+SKIP_QUOTES = ['yash_env::semantics::expansion::quote_removal::skip_quotes',
+               'yash_env::semantics::expansion::quote_removal::remove_quotes']
+STRIP = ['*::Strip::strip', re.compile(r'attr_strip::Strip.*::strip$')]
+RQS = [ATTR + 'AttrField::remove_quotes_and_strip']
+
+
+def _arg_local_behind_ref(du, operand):
+    org = du.origin(operand)
+    for _ in range(4):
+        if org['k'] == 'ref':
+            if not org['pl'].get('p'):
+                return org['pl']['l']
+            org = du.origin_place({'l': org['pl']['l']}) if org['pl'].get('p') == ['*'] else {'k': 'x'}
+            continue
+        break
+    return None
+
+
+def _chain(cx, F, fn, steps, forbidden):
+    """steps: [(label, patterns)] must each occur and each be dominated by the previous one;
+    forbidden patterns must not be called anywhere in the logical function."""
+    body = F.main_body(fn)
+    cx.fn(body.fn)
+    prev = None
+    for label, pats in steps:
+        cs = Q.find_calls(body, pats)
+        cx.site('%s: %s x%d%s' % (fn, label, len(cs), (' at ' + body.loc(cs[0][1])) if cs else ''))
+        if not cs:
+            cx.violation(fn, 'missing-step:%s' % label, '%s does not perform %s' % (fn.split('::')[-1], label), loc=body.loc(body.d))
+            return
+        if prev is not None:
+            for b, t in Q.check_dominated(body, prev[1], cs):
+                cx.violation(fn, 'order:%s<%s' % (prev[0], label), '%s can run before %s in %s' % (label, prev[0], fn.split('::')[-1]),
+                             loc=body.loc(t))
+        prev = (label, cs)
+    for lb in F.logical(fn):
+        for label, pats in forbidden:
+            for b, t in Q.find_calls(lb, pats):
+                cx.violation(fn, 'forbidden-step:%s' % label, '%s performs %s: a word expanded to a single field (assignment, '
+                             'redirection operand, here-document, case subject) must not be split or globbed'
+                             % (fn.split('::')[-1], label), loc=lb.loc(t))
+
+
+@RS.rule('C01.R6', 'K-ORDER', 'expansion < field splitting (with $IFS) < pathname expansion in expand_word_multiple; single-field entry points join and remove quotes last, never split or glob')
+def r6(cx):
+    F = cx.F
+    fn = EXP + 'expand_word_multiple'
+    body = F.main_body(fn)
+    cx.fn(body.fn)
+    du = Q.DefUse(body)
+    ex = Q.find_calls(body, EXPAND_CALL)
+    sp = Q.find_calls(body, SPLIT_INTO)
+    gl = Q.find_calls(body, GLOB)
+    for lab, cs in (('initial expansion', ex), ('split_into', sp), ('glob', gl)):
+        cx.site('%s: %s x%d%s' % (fn, lab, len(cs), (' at ' + body.loc(cs[0][1])) if cs else ''))
+    missing = [lab for lab, cs in (('initial expansion', ex), ('field splitting', sp), ('pathname expansion', gl)) if len(cs) != 1]
+    if missing:
+        for lab in missing:
+            cx.violation(fn, 'missing-step:%s' % lab, 'expand_word_multiple must perform %s exactly once per word' % lab,
+                         loc=body.loc(body.d))
+        return
+    (eb, et), (sb, st), (gb, gt) = ex[0], sp[0], gl[0]
+    if not body.dominates(eb, sb) or not body.dominates(eb, gb):
+        cx.violation(fn, 'order:expand<split', 'field splitting or pathname expansion can run before the initial expansion',
+                     loc=body.loc(st))
+    if sb in body.reachable(gb):
+        cx.violation(fn, 'order:split<glob', 'field splitting can run after pathname expansion has started: matched file names '
+                     'containing IFS characters would be split', loc=body.loc(st))
+    if gb in body.reachable(sb) and not body.dominates(eb, gb):
+        pass
+    # data flow: split_into(field <- phrase <- expand, ifs <- $IFS, out), glob(field <- out), results <- glob
+    t_phrase = Q.forward_taint(body, {et['dest']['l']})
+    if Q.operand_local(st['a'][0]) not in t_phrase:
+        cx.violation(fn, 'flow:expand->split', 'the field given to split_into does not come from the initial expansion', loc=body.loc(st))
+    out_local = _arg_local_behind_ref(du, st['a'][2])
+    cx.require(out_local is not None, 'the output collection of split_into is not a local')
+    t_split = Q.forward_taint(body, {out_local})
+    if Q.operand_local(gt['a'][1]) not in t_split:
+        cx.violation(fn, 'flow:split->glob', 'pathname expansion is not applied to the fields produced by field splitting',
+                     loc=body.loc(gt))
+    t_glob = Q.forward_taint(body, {gt['dest']['l']})
+    ext = Q.find_calls(body, ['*::Extend::extend'])
+    cx.floor(len(ext), 1, 'results.extend sites')
+    for b, t in ext:
+        cx.site('%s: results.extend at %s' % (fn, body.loc(t)))
+        if Q.operand_local(t['a'][1]) not in t_glob:
+            cx.violation(fn, 'flow:glob->results', 'a field is delivered that is not a result of pathname expansion / quote removal',
+                         loc=body.loc(t))
+    ifs_const = re.compile(r'^yash_env::variable::(constants::)?IFS$')
+    seeds = {t['dest']['l'] for b, t in body.calls() if any(ifs_const.match(a.get('cdef') or '') for a in t['a'])}
+    seeds |= {s_['lhs']['l'] for b, j, s_ in body.stmts() if s_['k'] == 'assign' and
+              any(ifs_const.match(o.get('cdef') or '') for o in Q.rvalue_operands(s_['rv']))}
+    cx.site('%s: the name constant IFS is used by %d local(s)' % (fn, len(seeds)))
+    t_ifs = Q.forward_taint(body, seeds) if seeds else set()
+    if Q.operand_local(st['a'][1]) not in t_ifs:
+        cx.violation(fn, 'flow:IFS->split', 'field splitting does not use the value of $IFS', loc=body.loc(st))
+    # an unset IFS means the default separators: Ifs::default() is Ifs::new(IFS_INITIAL_VALUE)
+    hd = F.hir_of("<%s<'_> as core::default::Default>::default" % IFS)
+    c_ok = any(x.get('k') == 'path' and x.get('def') == IFS + "::<'a>::DEFAULT" for x in H.walk(hd['body'])) and \
+        bool(H.calls(hd['body'], [IFS + "::<'a>::new"]))
+    dflt = H.const_eval(F.hir_of(IFS + "::<'a>::DEFAULT")['body'])
+    init = None
+    if isinstance(dflt, tuple) and dflt[0] == 'path' and dflt[1] in F.hir:
+        init = H.const_eval(F.hir[dflt[1]]['body'])
+    cx.site('Ifs::default() = Ifs::new(%r)' % (init,))
+    if not c_ok or init != ' \t\n':
+        cx.violation("<%s<'_> as core::default::Default>::default" % IFS, 'default-ifs', 'with IFS unset, fields must be split at '
+                     'space, tab and newline; the default separators are %r' % (init,), loc=_hloc(F, IFS + "::<'a>::DEFAULT"))
+    # split_into cuts the field at the ranges computed by Ifs::ranges over its own characters
+    sbody = F.body(SPLIT + 'split_into')
+    cx.fn(sbody.fn)
+    rc = Q.find_calls(sbody, RANGES_CALLS)
+    cx.site('%s: Ifs::ranges x%d' % (sbody.fn, len(rc)))
+    if len(rc) != 1:
+        cx.violation(sbody.fn, 'no-ranges', 'split_into does not obtain the field boundaries from Ifs::ranges', loc=sbody.loc(sbody.d))
+
+    # single-field entry points
+    no_multi = [('field splitting', SPLIT_INTO + RANGES_CALLS), ('pathname expansion', GLOB)]
+    _chain(cx, F, EXP + 'expand_word_attr', [('initial expansion', EXPAND_CALL), ('ifs_join', IFS_JOIN)], no_multi)
+    _chain(cx, F, EXP + 'expand_word', [('expand_word_attr', [EXP + 'expand_word_attr']), ('quote removal', RQS)], no_multi)
+    _chain(cx, F, EXP + 'expand_text', [('initial expansion', EXPAND_CALL), ('ifs_join', IFS_JOIN), ('quote removal', SKIP_QUOTES),
+                                        ('attribute stripping', STRIP)], no_multi)
+    _chain(cx, F, ATTR + 'AttrField::remove_quotes_and_strip', [('quote removal', SKIP_QUOTES), ('attribute stripping', STRIP)], [])
+
+    # quote removal deletes exactly the quoting characters
+    origins = _variants(F, ORIGIN)
+    for qfn in SKIP_QUOTES:
+        h = F.hir_of(qfn)
+        cx.fn(qfn)
+        clos = [x for x in H.walk(h['body']) if x.get('k') == 'closure']
+        filt = H.calls(h['body'], [re.compile(r'Iterator::filter$'), re.compile(r'Vec::<T, A>::retain$')])
+        cx.require(len(clos) == 1 and len(filt) == 1, '%s is not a single filter/retain with one closure' % qfn)
+        it = Interp(F, _no_extern(qfn))
+        for org in origins:
+            for quoted in (False, True):
+                for quoting in (False, True):
+                    c = MutStruct(ATTRCHAR, {'value': ('O', 'ch'), 'origin': V('%s::%s' % (ORIGIN, org)),
+                                             'is_quoted': quoted, 'is_quoting': quoting})
+                    keep = it.call_closure(('C', clos[0], {}), [c])
+                    cx.cellcount(1)
+                    if keep is not (not quoting):
+                        cx.violation(qfn, 'cell:%s/%s/%s' % (org, quoted, quoting), 'quote removal %s a character with origin=%s '
+                                     'is_quoted=%s is_quoting=%s' % ('keeps' if keep else 'deletes', org, quoted, quoting),
+                                     loc=_hloc(F, qfn))
+
+
+# =====================================================================================
+# C01.R7 - the read built-in shares the splitter
+# =====================================================================================
+READ_ASSIGN = 'yash_builtin::read::assigning::assign'
+RANGES_NEXT = "<%s<'_, I> as core::iter::traits::iterator::Iterator>::next" % RANGES
+RANGES_CTOR = SPLIT + "ranges::<impl %s<'a>>::ranges" % IFS
+# splitting primitive -> the only functions that may call it
+SPLITTER_CALLERS = {
+    RANGES_CTOR: {READ_ASSIGN, SPLIT + 'split_into'},
+    IFS + "::<'_>::classify_attr": {RANGES_NEXT, READ_ASSIGN},
+    IFS + "::<'_>::classify": {IFS + "::<'_>::classify_attr"},
+    IFS + "::<'_>::is_ifs": {IFS + "::<'_>::classify"},
+    IFS + "::<'_>::is_ifs_non_whitespace": {IFS + "::<'_>::classify"},
+    SPLIT + 'split_into': {SPLIT + 'split', EXP + 'expand_word_multiple'},
+}
+REQUIRED_CALLERS = {
+    RANGES_CTOR: {READ_ASSIGN, SPLIT + 'split_into'},
+    IFS + "::<'_>::classify_attr": {RANGES_NEXT, READ_ASSIGN},
+}
+
+
+@RS.rule('C01.R7', 'K-CALLERS', 'the read built-in splits its line with Ifs::ranges / classify_attr under $IFS; nobody else classifies or splits on their own')
+def r7(cx):
+    F = cx.F
+    for prim in SPLITTER_CALLERS:
+        cx.require(prim in F.bodies, 'splitting primitive %s not found' % prim)
+    got = {}
+    for body, blk, t in F.callers_of(lambda names, t: any(n in SPLITTER_CALLERS for n in names)):
+        for n in Q.callee_names(t):
+            if n in SPLITTER_CALLERS:
+                got.setdefault(n, {}).setdefault(body.root, (body, t))
+    # fn items passed as values (e.g. `.map(Ifs::classify)`) count as uses too
+    for body in F.bodies.values():
+        for b, t in body.calls():
+            for a in t['a']:
+                if a.get('fn') in SPLITTER_CALLERS:
+                    got.setdefault(a['fn'], {}).setdefault(body.root, (body, t))
+    for prim, users in sorted(got.items()):
+        for root, (body, t) in sorted(users.items()):
+            cx.site('%s is used by %s at %s' % (prim.split('::')[-1], root, body.loc(t)))
+            if root not in SPLITTER_CALLERS[prim]:
+                cx.violation(root, 'unreviewed-splitter:%s' % prim.split('::')[-1], '%s classifies or splits characters with %s outside the '
+                             'reviewed splitter (Ranges::next, split_into, read): a second splitting implementation'
+                             % (root, prim.split('::')[-1]), loc=body.loc(t))
+    for prim, need in REQUIRED_CALLERS.items():
+        for root in need:
+            if root not in got.get(prim, {}):
+                cx.require(root in F.by_root, 'function %s not found' % root)
+                b0 = F.by_root[root][0]
+                cx.violation(root, 'does-not-use:%s' % prim.split('::')[-1], '%s no longer obtains field boundaries / character '
+                             'classes from %s' % (root, prim), loc=b0.loc(b0.d))
+    # Class values outside the splitter module: only read::assigning may compare against them
+    for fn, body in F.bodies.items():
+        if fn.startswith(SPLIT):
+            continue
+        for b, j, s in Q.find_aggregates(body, CLASS):
+            cx.site('%s mentions Class::%s at %s' % (fn, s['rv']['variant'], body.loc(s)))
+            if body.root != READ_ASSIGN:
+                cx.violation(body.root, 'class-outside-splitter', '%s builds a split::Class value itself' % body.root, loc=body.loc(s))
+
+    # data flow inside read::assigning::assign
+    body = F.body(READ_ASSIGN)
+    cx.fn(READ_ASSIGN)
+    du = Q.DefUse(body)
+    ifs_const = re.compile(r'^yash_env::variable::(constants::)?IFS$')
+    seeds = {s_['lhs']['l'] for b, j, s_ in body.stmts() if s_['k'] == 'assign' and
+             any(ifs_const.match(o.get('cdef') or '') for o in Q.rvalue_operands(s_['rv']))}
+    seeds |= {t['dest']['l'] for b, t in body.calls() if any(ifs_const.match(a.get('cdef') or '') for a in t['a'])}
+    t_ifs = Q.forward_taint(body, seeds) if seeds else set()
+    news = Q.find_calls(body, [IFS + "::<'a>::new"])
+    ctor = Q.find_calls(body, [RANGES_CTOR])
+    cx.site('%s: Ifs::new x%d, Ifs::ranges x%d, IFS constant in %d locals' % (READ_ASSIGN, len(news), len(ctor), len(seeds)))
+    if len(news) != 1 or len(ctor) != 1:
+        cx.violation(READ_ASSIGN, 'shape', 'read must build one Ifs from $IFS and one Ranges over the line', loc=body.loc(body.d))
+        return
+    if Q.operand_local(news[0][1]['a'][0]) not in t_ifs:
+        cx.violation(READ_ASSIGN, 'flow:IFS->Ifs', 'the separators used by read do not come from $IFS', loc=body.loc(news[0][1]))
+    d_seeds = {s_['lhs']['l'] for b, j, s_ in body.stmts() if s_['k'] == 'assign' and
+               any(o.get('cdef') == IFS + "::<'a>::DEFAULT" for o in Q.rvalue_operands(s_['rv']))}
+    t_dflt = Q.forward_taint(body, d_seeds, through_calls=[]) if d_seeds else set()
+    dflt = [(b, t) for b, t in Q.find_calls(body, [re.compile(r'Option::<T>::unwrap_or$')])
+            if any(a.get('cdef') == IFS + "::<'a>::DEFAULT" or Q.operand_local(a) in t_dflt for a in t['a'])
+            and Q.operand_local(t['a'][0]) in t_ifs]
+    if not dflt:
+        cx.violation(READ_ASSIGN, 'default-ifs', 'with IFS unset read must split at the default separators (Ifs::DEFAULT)',
+                     loc=body.loc(news[0][1]))
+    ifs_local = news[0][1]['dest']['l']
+    if _arg_local_behind_ref(du, ctor[0][1]['a'][0]) != ifs_local:
+        cx.violation(READ_ASSIGN, 'flow:Ifs->ranges', 'the Ranges iterator of read is not created from the Ifs built from $IFS',
+                     loc=body.loc(ctor[0][1]))
+    text_args = [l for l in range(1, body.argc + 1) if 'AttrChar' in body.locals[l]['ty'] and body.locals[l]['ty'].startswith('&[')]
+    cx.require(len(text_args) == 1, 'assign has no single &[AttrChar] parameter')
+    t_text = Q.forward_taint(body, set(text_args))
+    if Q.operand_local(ctor[0][1]['a'][1]) not in t_text:
+        cx.violation(READ_ASSIGN, 'flow:text->ranges', 'the Ranges iterator of read does not run over the input line', loc=body.loc(ctor[0][1]))
+    # fields are taken with Ranges::next: in the closure for all variables but the last, and for the last one
+    nexts = [(lb, t) for lb in F.logical(READ_ASSIGN) for b, t in Q.find_calls(lb, [RANGES_NEXT])]
+    in_closure = [1 for lb, t in nexts if lb.fn != READ_ASSIGN]
+    cx.site('%s: Ranges::next x%d (%d in closures)' % (READ_ASSIGN, len(nexts), len(in_closure)))
+    if not in_closure or len(nexts) - len(in_closure) < 2:
+        cx.violation(READ_ASSIGN, 'field-source', 'every variable must receive the next field of the shared splitter, and the last one '
+                     'must look one field ahead to decide whether a remainder exists', loc=body.loc(body.d))
+    # the remainder for the last variable: from the start of its field to one past the last character that is
+    # not IFS white space
+    rpos = Q.find_calls(body, [re.compile(r'Iterator>::rposition$'), '*::Iterator::rposition'])
+    rng = [(b, j, s) for b, j, s in Q.find_aggregates(body, 'core::ops::range::Range')
+           if not all('c' in o and 'cp' not in o and 'mv' not in o for o in s['rv']['ops'])]
+    cx.site('%s: rposition x%d, computed Range x%d' % (READ_ASSIGN, len(rpos), len(rng)))
+    if len(rpos) != 1 or len(rng) != 1:
+        cx.violation(READ_ASSIGN, 'remainder-shape', 'the remainder given to the last variable must end after the last character that '
+                     'is not IFS white space (one rposition over the line)', loc=body.loc(body.d))
+        return
+    t_r = Q.forward_taint(body, {rpos[0][1]['dest']['l']})
+    start_o, end_o = rng[0][2]['rv']['ops']
+    if Q.operand_local(end_o) not in t_r:
+        cx.violation(READ_ASSIGN, 'remainder-end', 'the remainder given to the last variable does not end at the position found by '
+                     'rposition: trailing IFS white space would be kept (or text lost)', loc=body.loc(rng[0][2]))
+    plus1 = [s for b, j, s in body.stmts() if s['k'] == 'assign' and s['rv']['k'] == 'binop' and s['rv']['op'] in ('Add', 'AddWithOverflow')
+             and Q.operand_local(s['rv']['a']) in t_r and str(s['rv']['b'].get('c', '')).startswith('1_')]
+    if not plus1:
+        cx.violation(READ_ASSIGN, 'remainder-end+1', 'the end of the remainder must be one past the last non-white-space character',
+                     loc=body.loc(rng[0][2]))
+    first_next = [t for lb, t in nexts if lb.fn == READ_ASSIGN]
+    t_first = Q.forward_taint(body, {t['dest']['l'] for t in first_next})
+    if Q.operand_local(start_o) not in t_first:
+        cx.violation(READ_ASSIGN, 'remainder-start', 'the remainder does not start at the field the splitter assigned to the last '
+                     'variable', loc=body.loc(rng[0][2]))
+    if Q.operand_local(rpos[0][1]['a'][0]) not in t_text:
+        cx.violation(READ_ASSIGN, 'remainder-text', 'the end of the remainder is not searched in the input line', loc=body.loc(rpos[0][1]))
+    # the predicate given to rposition: "is not IFS white space", through classify_attr
+    clo = du.origin(rpos[0][1]['a'][1])
+    cx.require(clo['k'] == 'agg' and clo['rv'].get('ak') == 'closure', 'rposition predicate is not a closure')
+    cdef = clo['rv']['def']
+    h = F.hir_of(READ_ASSIGN)
+    cnode = [x for x in H.walk(h['body']) if x.get('k') == 'closure' and x.get('def') == cdef]
+    cx.require(len(cnode) == 1, 'closure %s not found in HIR' % cdef)
+    cls = {}
+
+    def extern(name, recv, args, node):
+        if name == IFS + "::<'_>::classify_attr" and args == [('O', 'ch')]:
+            return V('%s::%s' % (CLASS, cls['c']))
+        raise Undecidable('rposition predicate: call of %s is not modelled' % name)
+    it = Interp(F, extern)
+    captured = {x['id']: ('O', 'captured', x.get('name')) for x in H.walk(cnode[0]['body']) if x.get('k') == 'local'}
+    for c in _variants(F, CLASS):
+        cls['c'] = c
+        env = dict(captured)
+        keep = it.call_closure(('C', cnode[0], env), [('O', 'ch')])
+        cx.cellcount(1)
+        if keep is not (c != 'IfsWhitespace'):
+            cx.violation(READ_ASSIGN, 'remainder-predicate:%s' % c, 'when trimming the remainder for the last variable, a %s character is '
+                         '%s' % (c, 'kept as the end' if keep else 'trimmed'), loc=_hloc(F, READ_ASSIGN, cnode[0]))
